@@ -1122,8 +1122,14 @@ def main(argv: list[str]) -> int:
         raise MachineryError("; ".join(complaints))
     v.notes += complaints
 
+    # ---- try fragment (TryFlow.tla): programs x raise schedules, CPython outcome = specified outcome, mypy's verdict
+    from harness.drivers.c01_try import run_try_family
+    tryfam = run_try_family(v, tier, seed)
+    states += tryfam["states"]; transitions += tryfam["transitions"]
+
     coverage = {
         "states": states, "transitions": transitions,
+        "tryflow": tryfam,
         "traces_validated_against_impl": (len(recs_all) - len({d["prog"].replace(VARIANT_NOTE, "") for d in drift})
                                           + len(seq_norm) - len(seq_drift) + len(ovr_all) - len(ovr_drift)),
         "programs_replayed": len(recs_all),
@@ -1169,6 +1175,8 @@ def main(argv: list[str]) -> int:
     return v.finish("model_checking", coverage, [
         "fragment: classes A, B(A), C(A), E(A) (final leaves; E falsy), D; None; unions; isinstance / is None / truthiness "
         "narrowing; assignment; if/else; while; break/continue/return; call; method call -- nothing else of the typed language",
+        "try fragment (TryFlow.tla): one Optional[int] local, assignments, a call that may raise ValueError, `x + 1`, try / except "
+        "ValueError|KeyError nested to depth 2; mypy --strict through the command line with the real typeshed",
         "A-fixtures: in-process builds use test-data/unit/fixtures/isinstance.pyi as builtins; one module per run is "
         "cross-checked through the real command line with the real typeshed",
         "executions: every argument class of the declared parameter type, opaque conditions enumerated to depth %d "
